@@ -261,6 +261,8 @@ class World(WsWorld):
                 sopts["perMessageCompressionAccept"] = lambda offers: PerMessageDeflateOfferAccept(offers[0])
         sfac.setProtocolOptions(**sopts)
         cfac.setProtocolOptions(**copts)
+        self.refused_reconfiguration(sfac, dict(versions=[13, 99]))
+        self.refused_reconfiguration(cfac, dict(version=99))
         c, s = self.build_pair(cfac, sfac)
 
         def on_connect(req):
@@ -279,6 +281,19 @@ class World(WsWorld):
         self.expect_url = (host, port, resource)
         self.start(s)
         self.start(c)
+
+    def refused_reconfiguration(self, fac, bad):
+        """(in part of the runs) the application asks for a configuration the library refuses: the call raises, and the
+        factory goes on with the configuration it had"""
+        if not self.run.ch.flag("refused-reconfiguration", 0.15):
+            return
+        try:
+            fac.setProtocolOptions(**bad)
+        except Exception as e:  # noqa
+            self.run.probe("reconfiguration-refused")
+            self.run.log("app", "setProtocolOptions refused", sorted(bad), type(e).__name__)
+        else:
+            raise SetupViolation("invalid-configuration-accepted", repr(sorted(bad.items())))
 
     # --- server vs scripted client ----------------------------------------------------------------------------
     def build_server_mode(self):
@@ -307,6 +322,7 @@ class World(WsWorld):
             opts["perMessageCompressionAccept"] = lambda offers: PerMessageDeflateOfferAccept(offers[0]) \
                 if offers and isinstance(offers[0], PerMessageDeflateOffer) else None
         fac.setProtocolOptions(**opts)
+        self.refused_reconfiguration(fac, dict(versions=[8, 14]))
         # other connections already counted by the factory (connection limit)
         fac.countConnections = cfg["others"]
         e, peer = self.build_raw(fac, True)
@@ -512,7 +528,7 @@ class World(WsWorld):
             self.expect_url = expect_from_url(getattr(fac, "url", None)) or self.expect_url
         cfg["decoy"] = ch.flag("decoy-connection-first", 0.3)
         if cfg["decoy"]:
-            if ch.flag("decoy-is-a-pair", 0.5):
+            if ch.flag("decoy-is-a-pair", 0.4):
                 # a whole earlier connection in this process, client and server side, with compression offered,
                 # accepted (with parameters) and agreed
                 from autobahn.websocket.compress import (PerMessageDeflateOffer, PerMessageDeflateOfferAccept,
@@ -555,8 +571,12 @@ class World(WsWorld):
         t.flush(None)
         if b"\r\n\r\n" not in bytes(peer.received):
             raise SetupViolation("client-sent-no-request", "decoy connection")
+        # (the agreed extension may carry parameters - the very values a later, malformed response repeats)
+        params = self.run.ch.pick((b"", b"; client_no_context_takeover", b"; server_max_window_bits=10",
+                                   b"; server_no_context_takeover; server_max_window_bits=10"), "decoy-ext-params", (2, 1, 1, 1))
+        self.decoy_params = params
         peer.send(self.server_response_bytes(bytes(peer.received),
-                                             extra=b"Sec-WebSocket-Protocol: zzz\r\nSec-WebSocket-Extensions: permessage-deflate\r\n"))
+                                             extra=b"Sec-WebSocket-Protocol: zzz\r\nSec-WebSocket-Extensions: permessage-deflate" + params + b"\r\n"))
         chunk = p2e.take(len(p2e.buf))
         d.on_delivered(chunk)
         self.fw.deliver(self, t, chunk)
@@ -669,13 +689,24 @@ class World(WsWorld):
             hdr.append(("Sec-WebSocket-Extensions", "permessage-deflate"))
             hdr.append(("Sec-WebSocket-Extensions", "permessage-deflate"))
             valid = False
+        elif mut == "ext-bad-param" and getattr(self, "decoy_params", b"") and ch.flag("repeat-what-the-decoy-agreed", 0.6):
+            # the malformed response repeats a parameter of a well-formed response seen earlier in this process
+            twin = {b"; client_no_context_takeover": "client_no_context_takeover; client_no_context_takeover",
+                    b"; server_max_window_bits=10": "server_max_window_bits=10; server_max_window_bits=9",
+                    b"; server_no_context_takeover; server_max_window_bits=10":
+                        "server_no_context_takeover; server_max_window_bits=10; server_no_context_takeover"}[self.decoy_params]
+            hdr = [(k, v) for k, v in hdr if k != "Sec-WebSocket-Extensions"]
+            hdr.append(("Sec-WebSocket-Extensions", "permessage-deflate; " + twin))
+            self.run.probe("malformed-twin-of-an-earlier-response")
+            valid = False
         elif mut == "ext-bad-param":
             hdr = [(k, v) for k, v in hdr if k != "Sec-WebSocket-Extensions"]
             hdr.append(("Sec-WebSocket-Extensions", "permessage-deflate; " + ch.pick(
                 ("server_max_window_bits=7", "server_max_window_bits=16", "server_max_window_bits=0", "client_max_window_bits=0",
                  "client_max_window_bits=abc", "bogus_param",
                  "server_no_context_takeover=1", "client_no_context_takeover; client_no_context_takeover",
-                 "server_max_window_bits=10; server_max_window_bits=10"), "badparam")))
+                 "server_max_window_bits=10; server_max_window_bits=10", "server_max_window_bits=10; server_max_window_bits=9",
+                 "server_no_context_takeover; server_max_window_bits=10; server_no_context_takeover"), "badparam")))
             valid = False
         elif mut == "non-utf8":
             hdr.insert(1, ("X-Bin", "caf\xe9 \xff\xfe"))
